@@ -455,3 +455,44 @@ Definition nodes_view (lookupd_mode : bool) (lookupd_ups : list (bytes * fetch (
    /stats; an nsqd counts as failed when either fails *)
 Definition direct_producers {A : Type} (ups : list (bytes * fetch A)) (mk : bytes -> A -> list pinfo) : agg (list pinfo) :=
   error_rule (length ups) (nfailed ups) (flat_map (fun u => mk (fst u) (snd u)) (answers ups)).
+
+(* ------------------------------------------------------------------ specification side:
+   what the theorems of ClusterProofs state the aggregates to be, as directly computable
+   functions of the upstream data (also evaluated by the correspondence judge) *)
+Fixpoint sumZ (l : list Z) : Z := match l with [] => 0 | x :: r => x + sumZ r end.
+
+Definition cfields : list (cnum -> Z) :=
+  [n_depth; n_mem; n_backend; n_inflight; n_deferred; n_requeue; n_timeout; n_msgs; n_delivery; n_zone; n_region; n_global; n_ccount].
+Definition tfields : list (tnum -> Z) :=
+  [t_depth; t_mem; t_backend; t_msgs; t_delivery; t_zone; t_region; t_global].
+
+(* every (producer, topic name, channel) occurrence the loops visit, in order *)
+Definition centry : Type := pinfo * bytes * chan.
+Definition topic_entries (p : pinfo) (sel : bytes) (t : topic) : list centry :=
+  if sel_skips sel (tp_name t) then [] else map (fun c => (p, tp_name t, c)) (nonnil (tp_chans t)).
+Definition all_entries (ups : list (pinfo * fetch (list (option topic)))) (sel : bytes) : list centry :=
+  flat_map (fun u : pinfo * list (option topic) => flat_map (topic_entries (fst u) sel) (nonnil (snd u))) (answers ups).
+
+Definition ekey (sel : bytes) (e : centry) : bytes := chan_key sel (snd (fst e)) (ch_name (snd e)).
+
+(* the per-node topic entries of the result *)
+Definition topic_nodes (p : pinfo) (sel : bytes) (t : topic) : list tnode :=
+  if sel_skips sel (tp_name t) then []
+  else [mkTN (p_addr p) (p_hostname p) (tp_name t) (topic_num t) (tp_paused t) (tp_chans t)].
+Definition all_topic_nodes (ups : list (pinfo * fetch (list (option topic)))) (sel : bytes) : list tnode :=
+  flat_map (fun u : pinfo * list (option topic) => flat_map (topic_nodes (fst u) sel) (nonnil (snd u))) (answers ups).
+
+Definition stats_value (ups : list (pinfo * fetch (list (option topic)))) (sel : bytes) : stats_state :=
+  fold_left (fun st u => fold_left (proc_topic (fst u) sel) (nonnil (snd u)) st) (answers ups) ([], []).
+
+Definition tagg_of (nodes : list tnode) : tagg := fold_left tagg_add nodes tagg_zero.
+
+Fixpoint cs_find (k : bytes) (cs : list chan_sum) : option chan_sum :=
+  match cs with
+  | [] => None
+  | s :: r => if bytes_eqb (cs_name s) k then Some s else cs_find k r
+  end.
+
+Definition has_null_chan (nodes : list tnode) : bool := existsb (fun a => existsb is_nil (tn_chans a)) nodes.
+
+Definition ne_keys (l : list nentry) : list bytes := map (fun e => tcp_addr (ne_prod e)) l.
